@@ -59,6 +59,7 @@ macro "safe_upd" : tactic => `(tactic| (intro x; (try split) <;> simp_all))
 theorem safe_hdrF : Safe hdrF := by intro x; unfold hdrF; split <;> simp_all
 theorem safe_snapF : Safe snapF := by intro x; simp [snapF]
 theorem safe_markF : Safe markF := by intro x; simp [markF]
+theorem safe_deactF : Safe deactF := by intro x; simp [deactF]
 
 /-! ## rpc lists -/
 
@@ -225,6 +226,7 @@ macro "smono" : tactic => `(tactic|
     | apply SMono.modify (hf := safe_closeF _ _)
     | apply SMono.modify (hf := safe_orphanF _)
     | apply SMono.modify (hf := safe_hdrF)
+    | apply SMono.modify (hf := safe_deactF)
     | (apply SMono.modify; case hf => safe_upd)
     | apply SMono.append
     | apply SMono.map (hf := safe_snapF)))
@@ -325,9 +327,7 @@ theorem mono_orphanQueued (s : State) (l : List Item) : Mono s (s.orphanQueued l
   | nil => exact Mono.refl _
   | cons it rest ih =>
     cases it <;> simp only [State.orphanQueued] <;> (try exact ih _)
-    split
-    · exact (mono_orphan ..).trans (ih _)
-    · exact ih _
+    exact (mono_orphan ..).trans (ih _)
 
 theorem mono_put (s : State) (it : Item) : Mono s (s.put it) := by mono_leaf
 
